@@ -3,7 +3,7 @@
 # cgo overlay that points crypto's #cgo lines at the hand-built libsodium (DESIGN.md F1/F2).
 set -euo pipefail
 REPO=${VERIF_REPO:-/repo}
-V=/verif
+V=$(cd "$(dirname "${BASH_SOURCE[0]}")/.." && pwd)   # works from /verif and from a snapshot worktree (vp run)
 # Everything generated for the real /repo lives in /verif/build and /verif/go.mod. For a scratch copy
 # of the repository (VERIF_REPO=<dir>, used for sensitivity/mutation runs) it lives in
 # /verif/build/alt-<hash>/ and is selected with go's -modfile flag, so concurrent work never collides.
@@ -14,7 +14,7 @@ else
 fi
 mkdir -p $OUT/ov
 export VERIF_OUTDIR=$OUT
-/verif/scripts/build_libsodium.sh
+$V/scripts/build_libsodium.sh
 # --- go.mod: harness module with a replace to /repo and /repo's own requirements
 {
   echo "module verif"
@@ -36,10 +36,11 @@ SUMFILE=${MODFILE%.mod}.sum
 cat $REPO/go.sum $V/scripts/extra.sum 2>/dev/null | sort -u > $SUMFILE.new
 if ! cmp -s $SUMFILE.new $SUMFILE; then mv $SUMFILE.new $SUMFILE; else rm $SUMFILE.new; fi
 # --- overlay
-python3 - "$REPO" "$OUT" <<'PY'
+python3 - "$REPO" "$OUT" "$V" <<'PY'
 import json,sys,os,re
 repo=sys.argv[1]
 out=sys.argv[2]
+verif=sys.argv[3]
 rep={}
 for f in ("curve25519.go","batchverifier.go","vrf.go"):
     src=os.path.join(repo,"crypto",f)
@@ -51,7 +52,7 @@ for f in ("curve25519.go","batchverifier.go","vrf.go"):
     rep[src]=dst
 # add-only export shims: every file under /verif/hooks/<path> is overlaid as /repo/<path>
 # (build tag verif; nothing is written under /repo). They must not exist in /repo.
-hk="/verif/hooks"
+hk=verif+"/hooks"
 for root,_,files in os.walk(hk):
     for f in files:
         if not f.endswith(".go"): continue
